@@ -313,7 +313,18 @@ func decodeAuxiliaryMetadataOnly(content []byte) ([]byte, bool) {
 	return content[offset:metadataEnd], true
 }
 
+// maxCBORItemDepth bounds the nesting decodeCBORItemEnd follows, matching the
+// nesting limit of the general CBOR decoder.
+const maxCBORItemDepth = 256
+
 func decodeCBORItemEnd(b []byte, offset int) (int, bool) {
+	return decodeCBORItemEndDepth(b, offset, 0)
+}
+
+func decodeCBORItemEndDepth(b []byte, offset int, depth int) (int, bool) {
+	if depth > maxCBORItemDepth {
+		return offset, false
+	}
 	if offset >= len(b) {
 		return offset, false
 	}
@@ -350,7 +361,7 @@ func decodeCBORItemEnd(b []byte, offset int) (int, bool) {
 		cur := nextOffset
 		for range count {
 			var ok bool
-			cur, ok = decodeCBORItemEnd(b, cur)
+			cur, ok = decodeCBORItemEndDepth(b, cur, depth+1)
 			if !ok {
 				return offset, false
 			}
@@ -364,11 +375,11 @@ func decodeCBORItemEnd(b []byte, offset int) (int, bool) {
 		cur := nextOffset
 		for range count {
 			var ok bool
-			cur, ok = decodeCBORItemEnd(b, cur)
+			cur, ok = decodeCBORItemEndDepth(b, cur, depth+1)
 			if !ok {
 				return offset, false
 			}
-			cur, ok = decodeCBORItemEnd(b, cur)
+			cur, ok = decodeCBORItemEndDepth(b, cur, depth+1)
 			if !ok {
 				return offset, false
 			}
@@ -400,7 +411,7 @@ func decodeCBORItemEnd(b []byte, offset int) (int, bool) {
 		default:
 			return offset, false
 		}
-		return decodeCBORItemEnd(b, offset)
+		return decodeCBORItemEndDepth(b, offset, depth+1)
 	case cborTypeFloatSim:
 		switch additional {
 		case 20, 21, 22, 23:
